@@ -130,6 +130,22 @@ func (VarEnc) Decode(b []byte) (int, interface{}) { return len(b), string(b) }
 func (VarEnc) GetSize(d interface{}) int          { return len(d.(string)) }
 func (VarEnc) GetEncodedSize(b []byte) int        { return len(b) }
 
+// LenBytes is a harness-side variable-width encoder over []byte values that is
+// NOT the identity on them: one length byte, then the payload (fresh slices in
+// both directions).
+type LenBytes struct{}
+
+func (LenBytes) Encode(d interface{}) []byte {
+	b := d.([]byte)
+	return append([]byte{byte(len(b))}, b...)
+}
+func (LenBytes) Decode(b []byte) (int, interface{}) {
+	n := int(b[0])
+	return 1 + n, append([]byte{}, b[1:1+n]...)
+}
+func (LenBytes) GetSize(d interface{}) int   { return 1 + len(d.([]byte)) }
+func (LenBytes) GetEncodedSize(b []byte) int { return 1 + int(b[0]) }
+
 // defined integer types: a TypeEncoder must hand back exactly these types
 type offT uint32
 type idT int64
@@ -218,9 +234,11 @@ func (e EncSpec) Encoder() encode.Encoder {
 		return encode.I32{}
 	case "String16", "String16L":
 		return encode.String16{}
-	case "VarEnc":
+	case "VarEnc", "VarEncH", "VarEncH1":
 		return VarEnc{}
-	case "Dummy":
+	case "LenBytes":
+		return LenBytes{}
+	case "Dummy", "DummyB":
 		return encode.Dummy{}
 	case "I8":
 		return encode.I8{}
@@ -263,9 +281,9 @@ func (e EncSpec) Encoder() encode.Encoder {
 // FixedWidth reports the encoded width for fixed-width encoders, -1 for variable.
 func (e EncSpec) FixedWidth() int {
 	switch e.Name {
-	case "String16", "String16L", "VarEnc":
+	case "String16", "String16L", "VarEnc", "VarEncH", "VarEncH1", "LenBytes":
 		return -1
-	case "Dummy":
+	case "Dummy", "DummyB":
 		return 0
 	}
 	return e.Encoder().GetEncodedSize(nil)
@@ -343,6 +361,22 @@ func (e EncSpec) Values(ids []int) interface{} {
 			}
 		}
 		return r
+	case "VarEncH", "VarEncH1":
+		// presence holes in a FIXED-size array: ids of one parity encode to the
+		// empty slice, every other id to its own 2-byte string
+		r := make([]string, n)
+		hole := 0
+		if e.Name == "VarEncH1" {
+			hole = 1
+		}
+		for i, x := range ids {
+			if x%2 == hole {
+				r[i] = ""
+			} else {
+				r[i] = string([]byte{byte('a' + x%26), byte('A' + x/26%26)})
+			}
+		}
+		return r
 	case "Dummy":
 		r := make([]int, n)
 		for i, x := range ids {
@@ -400,6 +434,13 @@ func (e EncSpec) Values(ids []int) interface{} {
 		r := make([][]byte, n)
 		for i, x := range ids {
 			r[i] = []byte{byte(x), byte(x >> 8), byte(0xff - x)}
+		}
+		return r
+	case "LenBytes", "DummyB":
+		// 1..3 bytes; the first byte never looks like the length of the rest
+		r := make([][]byte, n)
+		for i, x := range ids {
+			r[i] = []byte{byte(0x80 + x), byte(x >> 7), byte(0xff - x)}[:1+x%3]
 		}
 		return r
 	case "TypeOff":
@@ -521,7 +562,7 @@ func Build(c *Case) (b *Built, panicked interface{}) {
 			// design (it stores nothing and decodes to nil); Bytes returns a slice of
 			// the stored bytes, compared by content.
 			var d interface{} = v
-			if c.Enc == "Dummy" {
+			if c.Enc == "Dummy" || c.Enc == "DummyB" {
 				_, d = b.Encoder.Decode(e)
 			}
 			if bs, ok := v.([]byte); ok {
